@@ -40,4 +40,13 @@ def asCompleted {α β} (f : α → β) (s : List α) (order : List Nat) : List 
 /-- the serial path -/
 def serialResults {α β} (f : α → β) (s : List α) : List β := s.map f
 
+/-- `_proxy_input`: falsy elements are dropped, every other one travels in a proxy whose source is the element itself -/
+def proxyInput {α} (truthy : α → Bool) (dstore : List α) : List α := dstore.filter truthy
+
+/-- `_as_completed` (what `list(app.as_completed(dstore, parallel=…))` yields): pairs (source of the proxy, value it carries);
+    `_source_wrapped` keeps the proxy's source and replaces the object by `app obj` -/
+def asCompletedApp {α β} (app : α → β) (truthy : α → Bool) (dstore : List α) (parallel : Bool) (order : List Nat) : List (α × β) :=
+  if parallel then asCompleted (fun e => (e, app e)) (proxyInput truthy dstore) order
+  else serialResults (fun e => (e, app e)) (proxyInput truthy dstore)
+
 end CogentModel.ParallelBook
